@@ -5,6 +5,7 @@ package signsim
 
 import (
 	"bytes"
+	"crypto/sha256"
 	"fmt"
 
 	"go.dedis.ch/kyber/v4"
@@ -317,6 +318,9 @@ func runTBLS(t *core.Tape, tier string, info *core.RunInfo) *core.Violation {
 				if ts.VerifyRecovered(pub.Commit(), other, rec) == nil {
 					return viol("recover", "tbls/recovered-verifies-other-message/"+c.name, "recovered signature verifies for another message")
 				}
+				if last == nil {
+					info.Logf("agg%d recovers %x", ag, rec)
+				}
 				last = rec
 				info.Probe("tbls-recovered")
 			} else if rerr == nil {
@@ -523,7 +527,8 @@ func runBDN(t *core.Tape, tier string, info *core.RunInfo) *core.Violation {
 		return viol("aggregate", "bdn/aggregate-does-not-verify/"+c.name+"/"+routes[route], "aggregate over mask %x does not verify under the aggregate key of that mask (route %s): %v", want, routes[route], err)
 	}
 	info.SigAdd("bdn:%s:%x", routes[route], want)
-	info.Logf("bdn n=%d mask=%x route=%s verifies", n, want, routes[route])
+	kb, _ := aggPub.MarshalBinary()
+	info.Logf("bdn n=%d mask=%x route=%s verifies: key#%x sig#%x", n, want, routes[route], sha256.Sum256(kb), sha256.Sum256(sb))
 	// reference mask by the plain route: equal bits => equal aggregate key
 	ref, _ := bdn.NewMask(keyG, pubs, nil)
 	_ = setBits(ref)
